@@ -94,6 +94,13 @@ func CmdCheck(args []string) int {
 		return 2
 	}
 	id, tier := args[0], args[1]
+	defer func() {
+		// scratch copies of the harness API file written by HarnessFiles
+		ms, _ := filepath.Glob(filepath.Join(os.TempDir(), fmt.Sprintf("gosym-api-*-%d.go", os.Getpid())))
+		for _, m := range ms {
+			os.Remove(m)
+		}
+	}()
 	solver := "z3-new"
 	workers := 16
 	only := ""
